@@ -113,6 +113,105 @@ def check_fraction_parts(repo, rep):
            "; ".join(bad[:2]) + (": the displayed fraction differs from the stored value (e.g. the unit carried by rounding is lost)" if bad else ""), key="C13.R4@fraction-parts")
 
 
+def _decimal_sign_table(fd):
+    """Decision table of the sign handling of _format_decimal: for each combination of (value < 0, style == 1,
+    style >= 2) the magnitude that is formatted and whether parentheses are added."""
+    import itertools
+
+    from ..symexec import Straight, bool_eval
+    from ..equiv import _Simp
+    import copy
+
+    p0 = fd.args.args[0].arg
+    sl = Straight(fd)
+    # the parenthesised return and the flag that selects it
+    par = [n for n in body_walk(fd) if isinstance(n, ast.Return) and isinstance(n.value, ast.JoinedStr) and U(n.value).replace(" ", "").startswith("f'({")]
+    if len(par) != 1 or not isinstance(par[0]._parent, ast.If):
+        # conditional expression form
+        par_ce = [n for n in body_walk(fd) if isinstance(n, ast.Return) and isinstance(n.value, ast.IfExp)]
+        if len(par_ce) != 1:
+            raise AnalysisError("_format_decimal: the parenthesised return not found")
+        flag_expr = sl.at(par_ce[0], par_ce[0].value.test)
+        body_is_paren = U(par_ce[0].value.body).replace(" ", "").startswith("f'({")
+        anchor = par_ce[0]
+    else:
+        flag_expr = sl.at(par[0]._parent, par[0]._parent.test)
+        body_is_paren = True
+        anchor = par[0]._parent
+    # the magnitude: the value of the first parameter when the digits are produced (first use in a formatting call)
+    uses = [c for c in body_walk(fd) if isinstance(c, ast.Call) and (last_attr(c.func) in ("sigfig", "is_integer", "int", "Decimal", "quantize", "round"))
+            and any(isinstance(x, ast.Name) and x.id == p0 for x in ast.walk(c))]
+    if not uses:
+        raise AnalysisError("_format_decimal: no formatting call on the value found")
+    st = uses[0]
+    while not isinstance(st, ast.stmt):
+        st = st._parent
+    mag = sl.at(st, ast.Name(id=p0, ctx=ast.Load()))
+    import re as _re
+
+    class _Asg(dict):
+        """Truth of the atoms for one (value < 0, style) pair: comparisons of the style with a constant are computed."""
+
+        def __init__(self, lt0, style):
+            super().__init__()
+            self.lt0, self.style = lt0, style
+
+        def _val(self, k):
+            t = k.replace(" ", "")
+            if t in (f"{p0}<0", f"0>{p0}"):
+                return self.lt0
+            if t in (f"{p0}>=0", f"0<={p0}"):
+                return not self.lt0
+            m_ = _re.fullmatch(r"number_format\.negative_style(==|!=|>=|<=|>|<)(\d+)", t)
+            if m_:
+                c = int(m_.group(2))
+                return {"==": self.style == c, "!=": self.style != c, ">=": self.style >= c, "<=": self.style <= c, ">": self.style > c, "<": self.style < c}[m_.group(1)]
+            m_ = _re.fullmatch(r"number_format\.negative_style(in|notin)\(([\d,]+)\)", t)
+            if m_:
+                members = {int(x) for x in m_.group(2).split(",") if x}
+                return (self.style in members) == (m_.group(1) == "in")
+            return None
+
+        def get(self, k, d=None):
+            v = self._val(k)
+            return d if v is None else v
+
+        def __contains__(self, k):
+            return self._val(k) is not None
+
+        def __getitem__(self, k):
+            v = self._val(k)
+            if v is None:
+                raise KeyError(k)
+            return v
+
+    from ..symexec import bool_atoms
+    probe = _Asg(False, 0)
+    extra = set()
+    for e_ in [flag_expr] + [n.test for n in ast.walk(mag) if isinstance(n, ast.IfExp)]:
+        extra |= {a_ for a_ in bool_atoms(e_) if probe._val(a_) is None}
+    extra = sorted(extra)
+    if len(extra) > 4:
+        raise AnalysisError(f"_format_decimal: sign handling depends on too many other facts: {extra}")
+    for lt0, style in itertools.product([False, True], [0, 1, 2, 3]):
+      for evals in itertools.product([False, True], repeat=len(extra)):
+        asg = _Asg(lt0, style)
+        fixed = dict(zip(extra, evals))
+        asg._val = (lambda base, fx: (lambda k: fx[k] if k in fx else base(k)))(asg._val, fixed)
+        m_ast = _Simp(asg).visit(copy.deepcopy(mag))
+        m = U(m_ast).replace(" ", "")
+        f = bool_eval(flag_expr, asg)
+        if any(isinstance(n, ast.IfExp) for n in ast.walk(m_ast)) or f is None:
+            raise AnalysisError(f"_format_decimal: sign handling not decidable: `{m}` / `{U(flag_expr)}`")
+        neg = lt0 and style >= 1
+        want_m = (f"-{p0}", f"abs({p0})") if neg else (p0, f"abs({p0})" if not lt0 else p0)
+        want_paren = lt0 and style >= 2
+        got_paren = f if body_is_paren else (not f)
+        if m not in want_m or got_paren != want_paren:
+            return False, f"with value<0={lt0}, negative_style={style}" + (f" and {fixed}" if fixed else "") + f" the digits are those of `{m}` and parentheses={got_paren}"
+    return True, ""
+
+
 def run(repo, rep, tier):
     consts_tree = repo.tree("constants.py")
     afp_node = repo.module_assign("constants.py", "ALLOWED_FORMATTING_PARAMETERS")
@@ -199,11 +298,9 @@ def run(repo, rep, tier):
         rep.ob("C13.R2", f, f"{f.name}: no positional strip of the formatted text", not strips,
                "" if not strips else f"{[U(x) for x in strips]} removes a character by position: with negative styles that print no minus sign it removes a digit or a parenthesis",
                key=f"C13.R2@{f.name}:strip")
-    s = U(fd).replace(" ", "").replace("\n", "")
-    ok = "ifvalue<0andnumber_format.negative_style==1:accounting_style=Falsevalue=-value" in s and "elifvalue<0andnumber_format.negative_style>=2:accounting_style=Truevalue=-value" in s \
-        and "else:accounting_style=False" in s and "ifaccounting_style:returnf'({formatted_value})'returnformatted_value" in s
+    ok, detail = _decimal_sign_table(fd)
     rep.ob("C13.R2", fd, "_format_decimal: style 1 drops the sign, styles >= 2 wrap the magnitude in parentheses, otherwise the minus sign stays", ok,
-           "" if ok else "negative styles are decorated differently: sign or magnitude can change", key="C13.R2@negative-styles")
+           "" if ok else detail + ": negative styles are decorated differently: sign or magnitude can change", key="C13.R2@negative-styles")
     s = U(fc).replace(" ", "").replace("\n", "")
     ok = "ifnumber_format.use_accounting_styleandvalue<0:" in s and "_format_decimal(abs(value),number_format)" in s and "returnsymbol+formatted_value" in s
     rep.ob("C13.R2", fc, "_format_currency: accounting style formats the magnitude in parentheses; otherwise symbol + decimal text", ok, "", key="C13.R2@accounting")
